@@ -119,6 +119,9 @@ class RegistryServer(object):
     def _send(self, data, addrinfo):
         raise NotImplementedError()
 
+    def _discard(self, addrinfo):
+        """called instead of ``_send`` when a request gets no reply"""
+
     def _work(self):
         while self.active:
             try:
@@ -128,21 +131,25 @@ class RegistryServer(object):
             try:
                 magic, cmd, args = brine.load(data)
             except Exception:
+                self._discard(addrinfo)
                 continue
             if magic != "RPYC":
                 self.logger.warn("invalid magic: %r", magic)
+                self._discard(addrinfo)
                 continue
             cmdfunc = None
             if isinstance(cmd, str):
                 cmdfunc = getattr(self, "cmd_%s" % (cmd.lower(),), None)
             if not cmdfunc:
                 self.logger.warn("unknown command: %r", cmd)
+                self._discard(addrinfo)
                 continue
 
             try:
                 reply = cmdfunc(addrinfo[0], *args)
             except Exception:
                 self.logger.exception('error executing function')
+                self._discard(addrinfo)
             else:
                 self._send(brine.dump(reply), addrinfo)
 
@@ -246,6 +253,9 @@ class TCPRegistryServer(RegistryServer):
                 sock2.send(data)
             except (socket.error, socket.timeout):
                 pass
+
+    def _discard(self, addrinfo):
+        self._connected_sockets.pop(addrinfo).close()
 
 # ------------------------------------------------------------------------------
 # clients (registrars)
